@@ -6,10 +6,12 @@ import (
 	"sort"
 	"strings"
 	"sync"
+	"time"
 
 	"github.com/vx-labs/wasp/v4/wasp"
 
 	"wv/fw"
+	"wv/kit"
 )
 
 // C06 — packet identifiers in flight are unique and never leak.
@@ -268,4 +270,109 @@ func runC06(c *fw.Ctx) {
 		}(w)
 	}
 	wg.Wait()
+	c06Writer(c)
+}
+
+// c06Writer: writer level, with a pool of 8 identifiers (hook H1) and a subscriber
+// that acknowledges slowly: two unacknowledged deliveries never share an
+// identifier, identifiers stay in range, and exhaustion delays or drops
+// deliveries instead of duplicating identifiers.
+func c06Writer(c *fw.Ctx) {
+	rounds := c.Pick(6, 60)
+	for r := 0; r < rounds; r++ {
+		rg := c.SubRng("c06/writer", r)
+		fw.LogCase("C06 writer scenario %d", r)
+		cl := kit.NewCluster(kit.WorkDir("c06"))
+		func() {
+			defer cl.Close()
+			n, err := cl.AddNode(kit.NodeOpts{ID: 1, PoolMin: 1, PoolMax: 8})
+			if err != nil {
+				c.Inconclusive("cannot start node: " + err.Error())
+				return
+			}
+			sub, err := n.MustConnect(kit.ConnectOpts{ClientID: "slow", KeepAlive: 600, Clean: true})
+			if err != nil {
+				c.Inconclusive("connect: " + err.Error())
+				return
+			}
+			defer sub.Close()
+			sub.SetAutoAck(false)
+			subQos := 1 + r%2
+			if err := sub.Sub1("c06/t", subQos); err != nil {
+				c.Inconclusive("subscribe: " + err.Error())
+				return
+			}
+			pub, err := n.MustConnect(kit.ConnectOpts{ClientID: "pub", KeepAlive: 600, Clean: true})
+			if err != nil {
+				c.Inconclusive("connect: " + err.Error())
+				return
+			}
+			defer pub.Close()
+			outstanding := map[int]string{} // id -> tag, as seen by the client
+			seenTags := map[string]bool{}
+			processed := 0
+			scan := func() bool {
+				evs := sub.Events()
+				for ; processed < len(evs); processed++ {
+					p := evs[processed].Pkt
+					if p.Type != kit.PUBLISH {
+						continue
+					}
+					tag := string(p.Payload)
+					if p.ID < 1 || p.ID > 8 {
+						c.Violation("writer:identifier-out-of-range", fmt.Sprintf("writer scenario %d: delivery %s carries identifier %d outside the configured range [1,8]", r, tag, p.ID), nil)
+						return false
+					}
+					if o, busy := outstanding[p.ID]; busy && o != tag {
+						c.Violation("writer:identifier-reused-while-outstanding", fmt.Sprintf("writer scenario %d: identifier %d handed to %s while %s is still unacknowledged", r, p.ID, tag, o), map[string]interface{}{"scenario": r, "id": p.ID})
+						return false
+					}
+					outstanding[p.ID] = tag
+					seenTags[tag] = true
+				}
+				return true
+			}
+			total := 0
+			for step := 0; step < 6; step++ {
+				k := 3 + rg.Intn(8)
+				for i := 0; i < k; i++ {
+					total++
+					if acked, _ := pub.Publish("c06/t", []byte(fmt.Sprintf("w%d-%d", r, total)), 1, false, kit.DefaultWait); !acked {
+						c.Inconclusive("publish not acknowledged")
+						return
+					}
+				}
+				// let the writer work through them (exhaustion makes it wait 5 x 100 ms per message)
+				time.Sleep(time.Duration(100+rg.Intn(300)) * time.Millisecond)
+				if !scan() {
+					return
+				}
+				if len(outstanding) == 8 {
+					c.Observe("writer_pool_exhausted_seen", 1)
+				}
+				// acknowledge a random subset
+				for id := range outstanding {
+					if rg.Intn(2) == 0 {
+						if subQos == 1 {
+							sub.Send(kit.EncPubAck(id))
+						} else {
+							sub.Send(kit.EncPubRec(id))
+							sub.Send(kit.EncPubComp(id))
+						}
+						delete(outstanding, id)
+					}
+				}
+				if ok, _ := sub.Ping(kit.DefaultWait); !ok {
+					c.Inconclusive("no PINGRESP from the slow subscriber")
+					return
+				}
+				if !scan() {
+					return
+				}
+			}
+			c.Case(fmt.Sprintf("writer|%d", r), true)
+			c.Observe("writer_deliveries_seen", len(seenTags))
+			c.Observe("writer_publishes", total)
+		}()
+	}
 }
